@@ -5,6 +5,8 @@ import (
 	"flag"
 	"fmt"
 	"os"
+
+	"golang.org/x/tools/go/ssa"
 	"path/filepath"
 	"runtime"
 	"sort"
@@ -93,9 +95,71 @@ func main() {
 		os.Exit(runCheck(cmd, *id, *repo, *verif, *tier, *keep, *only, *verbose))
 	case "ssa":
 		dumpSSA(*repo, *pkgPat, *fnName)
+	case "why":
+		// why does the inferred write set of -func contain a class matching -only?
+		whyFrame(*repo, *verif, *pkgPat, *fnName, *only)
 	default:
 		fmt.Fprintln(os.Stderr, "unknown command", cmd)
 		os.Exit(2)
+	}
+}
+
+func whyFrame(repo, verif, pat, fn, class string) {
+	eng, err := NewEngine(repo, []string{pat})
+	if err != nil {
+		fmt.Fprintln(os.Stderr, err)
+		os.Exit(2)
+	}
+	eng.verif = verif
+	if specs, err := LoadSpecs(filepath.Join(verif, "specs")); err == nil {
+		eng.specs = specs
+	}
+	for f := range eng.allFuncs {
+		if !(eng.inModule(f) && (contractKey(f) == fn || f.String() == fn)) {
+			continue
+		}
+		ws := eng.frames.of(f, nil)
+		var ks []string
+		for k := range ws {
+			ks = append(ks, k)
+		}
+		sort.Strings(ks)
+		fmt.Println(f.String(), "writes", len(ks), "classes")
+		for _, k := range ks {
+			fmt.Println("  ", k)
+		}
+		if class == "" {
+			continue
+		}
+		prev := map[*ssa.Function]*ssa.Function{f: nil}
+		queue := []*ssa.Function{f}
+		for len(queue) > 0 {
+			g := queue[0]
+			queue = queue[1:]
+			hit := ""
+			for k := range eng.frames.direct[g] {
+				if strings.Contains(k, class) {
+					hit = k
+				}
+			}
+			if hit != "" {
+				fmt.Println("path to a direct write of", hit)
+				var path []string
+				for h := g; h != nil; h = prev[h] {
+					path = append(path, h.String())
+				}
+				for i := len(path) - 1; i >= 0; i-- {
+					fmt.Println("   ", path[i])
+				}
+				break
+			}
+			for _, h := range eng.frames.callees[g] {
+				if _, ok := prev[h]; !ok {
+					prev[h] = g
+					queue = append(queue, h)
+				}
+			}
+		}
 	}
 }
 
